@@ -338,6 +338,12 @@ def validate(traces, checks, module="FlowTrace.tla", cfg="FlowTrace.cfg", timeou
     the trace is validated again, so that every remaining execution is still examined.
     """
     env0 = {("CHK_" + c): ("1" if c in checks else "0") for c in ALL_CHECKS}
+    # traces of deep / wide worlds (one line = one world of 10^4..10^5 nodes) need a larger heap
+    try:
+        if traces and max(os.path.getsize(t) for t in traces) > 4000000:
+            xmx = "12g"
+    except OSError:
+        pass
 
     def classify(r, tp):
         if r.error is None:
